@@ -152,6 +152,22 @@ func wgShape(fd *ast.FuncDecl, consts map[string]string) {
 		}
 		return t
 	}
+	// a condition as the sorted list of its conjuncts (operands of && have no side effects here)
+	var conj func(e ast.Expr) []string
+	conj = func(e ast.Expr) []string {
+		if p, ok := e.(*ast.ParenExpr); ok {
+			return conj(p.X)
+		}
+		if b, ok := e.(*ast.BinaryExpr); ok && b.Op == token.LAND {
+			return append(conj(b.X), conj(b.Y)...)
+		}
+		return []string{norm(e)}
+	}
+	cond := func(e ast.Expr) string {
+		c := conj(e)
+		sort.Strings(c)
+		return strings.Join(c, " && ")
+	}
 	name := fd.Name.Name
 	if len(fd.Body.List) > 0 {
 		consts["wg_"+name+"_first"] = norm(fd.Body.List[0])
@@ -185,18 +201,18 @@ func wgShape(fd *ast.FuncDecl, consts map[string]string) {
 				if sel.Sel.Name == "Wait" {
 					c := "true"
 					if x.Cond != nil {
-						c = norm(x.Cond)
+						c = cond(x.Cond)
 					}
 					consts[key] = "for " + c
 					return true
 				}
 			case *ast.IfStmt:
 				if sel.Sel.Name != "Wait" {
-					consts[key] = "if " + norm(x.Cond)
+					consts[key] = "if " + cond(x.Cond)
 					return true
 				}
 				if consts[key] == "unguarded" {
-					consts[key] = "if " + norm(x.Cond) // a Wait under an if, not (yet) under a for
+					consts[key] = "if " + cond(x.Cond) // a Wait under an if, not (yet) under a for
 				}
 			}
 		}
